@@ -108,7 +108,7 @@ def end_case(verb, place, how, pool=True, sessions=0, size=None, rest=None, list
     end): the dispatcher must wait for its cancelled tasks, Server.close() must not return before they are done"""
     steps, gates, files, block, payload = xfer.transfer_setup(verb, place, size=size, rest=rest, listen=listen)
     steps = steps + [["snap", "held"]] + end_steps(how)
-    stalled = place[0] == "stalled" or "retr_stalled" in place[1:]
+    stalled = place[0] in ("stalled", "stalled_gate") or "retr_stalled" in place[1:]
     if slow_close:
         gates = gates + [["close", 1]]
         steps = steps + [["snap", "unwinding"], ["release", "close"]]
@@ -256,7 +256,7 @@ def run_cases(ctx, cases, facts, stream):
         ctx.count(f"how:{how}")
         ctx.count("stream:" + stream)
         if stream == "stage":
-            ctx.count(f"place:{case['place'][0]}" + (f":{case['place'][1]}" if case["place"][0] in ("gate", "late_gate", "idle", "bind", "handler_gate") else ""))
+            ctx.count(f"place:{case['place'][0]}" + (f":{case['place'][1]}" if case["place"][0] in ("gate", "late_gate", "idle", "bind", "handler_gate", "stalled_gate") else ""))
         bad, left = oracle(case, r)
         if bad:
             key = key_for(case, r, bad, left)
@@ -329,6 +329,9 @@ def stage_cases(thorough):
             places += [("noread",)]
         if verb in ("RETR", "LIST", "MLSD"):
             places += [("stalled",)]  # data peer connected, not reading, the transport's write buffer full
+            # ... combined with a slow n-th back-end call (before / at / after the block at which the socket write suspends)
+            op = "read" if verb == "RETR" else "stat"
+            places += [("stalled_gate", op, n) for n in ((1, 2, 3, 4, 5, 6, 7, 8) if verb == "RETR" else (1, 2, 3))]
         if verb in ("LIST", "MLSD"):
             places += [("gate", "list", 1), ("gate", "list", 3), ("gate", "stat", 2), ("late_gate", "stat", 1)]
             if verb == "LIST":
